@@ -31,3 +31,21 @@ ThreadedProofs.vos ThreadedProofs.vok ThreadedProofs.required_vos: ThreadedProof
 IterEqProofs.vo IterEqProofs.glob IterEqProofs.v.beautified IterEqProofs.required_vo: IterEqProofs.v Base.vo Arena.vo ArenaProofs.vo Rodeo.vo RodeoInv.vo RodeoProofs.vo
 IterEqProofs.vio: IterEqProofs.v Base.vio Arena.vio ArenaProofs.vio Rodeo.vio RodeoInv.vio RodeoProofs.vio
 IterEqProofs.vos IterEqProofs.vok IterEqProofs.required_vos: IterEqProofs.v Base.vos Arena.vos ArenaProofs.vos Rodeo.vos RodeoInv.vos RodeoProofs.vos
+WorldProofs.vo WorldProofs.glob WorldProofs.v.beautified WorldProofs.required_vo: WorldProofs.v Base.vo Arena.vo ArenaProofs.vo Rodeo.vo RodeoInv.vo RodeoProofs.vo ThreadedInv.vo CloneSerdeProofs.vo ThreadedProofs.vo IterEqProofs.vo
+WorldProofs.vio: WorldProofs.v Base.vio Arena.vio ArenaProofs.vio Rodeo.vio RodeoInv.vio RodeoProofs.vio ThreadedInv.vio CloneSerdeProofs.vio ThreadedProofs.vio IterEqProofs.vio
+WorldProofs.vos WorldProofs.vok WorldProofs.required_vos: WorldProofs.v Base.vos Arena.vos ArenaProofs.vos Rodeo.vos RodeoInv.vos RodeoProofs.vos ThreadedInv.vos CloneSerdeProofs.vos ThreadedProofs.vos IterEqProofs.vos
+Conc.vo Conc.glob Conc.v.beautified Conc.required_vo: Conc.v Arena.vo
+Conc.vio: Conc.v Arena.vio
+Conc.vos Conc.vok Conc.required_vos: Conc.v Arena.vos
+ConcInv.vo ConcInv.glob ConcInv.v.beautified ConcInv.required_vo: ConcInv.v Base.vo Arena.vo ArenaProofs.vo Conc.vo
+ConcInv.vio: ConcInv.v Base.vio Arena.vio ArenaProofs.vio Conc.vio
+ConcInv.vos ConcInv.vok ConcInv.required_vos: ConcInv.v Base.vos Arena.vos ArenaProofs.vos Conc.vos
+ConcArenaProofs.vo ConcArenaProofs.glob ConcArenaProofs.v.beautified ConcArenaProofs.required_vo: ConcArenaProofs.v Base.vo Arena.vo ArenaProofs.vo Conc.vo ConcInv.vo
+ConcArenaProofs.vio: ConcArenaProofs.v Base.vio Arena.vio ArenaProofs.vio Conc.vio ConcInv.vio
+ConcArenaProofs.vos ConcArenaProofs.vok ConcArenaProofs.required_vos: ConcArenaProofs.v Base.vos Arena.vos ArenaProofs.vos Conc.vos ConcInv.vos
+ConcInternProofs.vo ConcInternProofs.glob ConcInternProofs.v.beautified ConcInternProofs.required_vo: ConcInternProofs.v Base.vo Arena.vo ArenaProofs.vo Conc.vo ConcInv.vo
+ConcInternProofs.vio: ConcInternProofs.v Base.vio Arena.vio ArenaProofs.vio Conc.vio ConcInv.vio
+ConcInternProofs.vos ConcInternProofs.vok ConcInternProofs.required_vos: ConcInternProofs.v Base.vos Arena.vos ArenaProofs.vos Conc.vos ConcInv.vos
+Props/C08.vo Props/C08.glob Props/C08.v.beautified Props/C08.required_vo: Props/C08.v Base.vo Arena.vo ArenaProofs.vo
+Props/C08.vio: Props/C08.v Base.vio Arena.vio ArenaProofs.vio
+Props/C08.vos Props/C08.vok Props/C08.required_vos: Props/C08.v Base.vos Arena.vos ArenaProofs.vos
